@@ -276,6 +276,19 @@ theorem cgE_lbl (mod : String) (ρ φ : String → Option String) (e : Expr) (lm
     LblInv mod lm (cgE mod ρ φ e lm).2 (definedLabels (cgE mod ρ φ e lm).1) :=
   (cgE_labels mod ρ φ (Frag.depthGE e)).1 e lm (Nat.le_refl _)
 
+theorem cgL_lbl (mod : String) (ρ φ : String → Option String) (e : Expr) (lm : LM) :
+    LblInv mod lm (cgL mod ρ φ e lm).2 (definedLabels (cgL mod ρ φ e lm).1) := by
+  cases e <;> try exact cgE_lbl mod ρ φ _ lm
+  rename_i csp cty base args sw
+  cases base <;> try exact cgE_lbl mod ρ φ _ lm
+  rename_i msp mty b nm mop
+  cases mop <;> try exact cgE_lbl mod ρ φ _ lm
+  cases args <;> try exact cgE_lbl mod ρ φ _ lm
+  cases sw <;> try exact cgE_lbl mod ρ φ _ lm
+  have hd : definedLabels [((Instr.member nm : SInstr), msp), (.copyPush (.int 0), csp), (.callVal, csp)] = [] := rfl
+  simp only [cgL, definedLabels_append, hd, List.append_nil]
+  exact cgE_lbl mod ρ φ b lm
+
 theorem cgArgs_lbl (mod : String) (ρ φ : String → Option String) (args : List (String × Expr)) (lm : LM) :
     LblInv mod lm (cgArgs mod ρ φ args lm).2 (definedLabels (cgArgs mod ρ φ args lm).1) :=
   (cgE_labels mod ρ φ (Frag.depthGArgs args)).2.2.1 args lm (Nat.le_refl _)
@@ -342,7 +355,7 @@ theorem cgS_labels (mod fn : String) (φ : String → Option String) : ∀ (n : 
         · simp only [cgS, definedLabels_append,
             definedLabels_instr _ _ _ (rfl : isLabel (Instr.setVar _ : SInstr) = false),
             definedLabels_nil, List.append_nil]
-          exact cgE_lbl mod _ φ e env.lm
+          exact cgL_lbl mod _ φ e env.lm
         · exact LblInv.nil mod env.lm
       case exprS sp e =>
         cases e
@@ -435,6 +448,13 @@ theorem cgS_labels (mod fn : String) (φ : String → Option String) : ∀ (n : 
               fun l hl => h1234.range l (hsl.mem (hperm.mem_iff.mp hl))⟩
         case call csp cty base args sw =>
           cases base <;> try exact LblInv.nil mod env.lm
+          case member msp mty b nm mop =>
+            cases mop <;> cases args <;> try exact LblInv.nil mod env.lm
+            rename_i a rest
+            cases rest <;> cases sw <;> try exact LblInv.nil mod env.lm
+            have hd : definedLabels [((Instr.member nm : SInstr), msp), (.copyPush (.int 1), csp), (.callVal, csp)] = [] := rfl
+            simp only [cgS, definedLabels_append, hd, List.append_nil]
+            exact (cgE_lbl mod _ φ a.2 env.lm).append (cgE_lbl mod _ φ b _)
           rename_i isp ity name g f si
           simp only [cgS]
           split
